@@ -478,3 +478,75 @@ func VH06e_burst() {
 	verif.Reach("burst-epilogue")
 	sock.Close()
 }
+
+// VH06f_many_subscriptions: a SUB socket or context holds N (5) subscriptions
+// (distinct one-byte topics, subscribed in order, one of them twice). Two of
+// them are cancelled (any two positions, every combination a path; a third
+// Unsubscribe repeats the first). Afterwards a publication for every topic:
+// exactly those still subscribed are delivered, once each, in order; cancelling
+// a subscription that is held succeeds, cancelling one that is not fails.
+func VH06f_many_subscriptions() {
+	N := verif.Param("N", 5)
+	lab := "C06/many-subscriptions"
+	sock := vp.New("sub")
+	side := vt.Listen(sock, "a")
+	p0 := side.Peer("p0")
+	r := &subref{name: "sock", sock: sock}
+	if verif.Choice("api", 2) == 1 {
+		c, err := sock.OpenContext()
+		verif.Assert(err == nil, lab+"/open-context")
+		r = &subref{name: "ctx", c: c}
+	}
+	held := make([]bool, N)
+	for i := 0; i < N; i++ {
+		verif.Assert(r.opt().SetOption(mangos.OptionSubscribe, []byte{byte('a' + i)}) == nil, lab+"/subscribe")
+		held[i] = true
+	}
+	verif.Assert(r.opt().SetOption(mangos.OptionSubscribe, []byte{'b'}) == nil, lab+"/subscribe-again")
+	x := verif.Choice("first", N)
+	y := verif.Choice("second", N)
+	verif.Assume(x != y)
+	for k, i := range []int{x, y, x} {
+		err := r.opt().SetOption(mangos.OptionUnsubscribe, []byte{byte('a' + i)})
+		if k < 2 {
+			verif.Assert(err == nil, lab+"/unsubscribe-of-a-held-subscription-fails")
+			held[i] = false
+		} else {
+			verif.Assert(err != nil, lab+"/unsubscribe-of-a-cancelled-subscription-succeeds")
+		}
+	}
+	for i := 0; i < N; i++ {
+		p0.Deliver([]byte{byte('a' + i), byte(i)})
+		verif.Quiesce()
+	}
+	for i := 0; i < N; i++ {
+		if !held[i] {
+			continue
+		}
+		var m *mangos.Message
+		var err error
+		g := verif.Go("recv", func() { m, err = r.recvMsg() })
+		verif.Quiesce()
+		verif.Assert(g.Done() && err == nil, lab+"/publication-for-a-held-subscription-not-delivered")
+		if !g.Done() || err != nil {
+			return
+		}
+		verif.Assert(len(m.Body) == 2 && m.Body[0] == byte('a'+i) && m.Body[1] == byte(i), lab+"/wrong-publication-delivered")
+	}
+	g := verif.Go("recv-extra", func() { r.recvMsg() })
+	verif.Quiesce()
+	verif.Assert(!g.Done(), lab+"/publication-for-a-cancelled-subscription-delivered")
+	// the remaining ones can all be cancelled, after which nothing is delivered
+	for i := 0; i < N; i++ {
+		if held[i] {
+			verif.Assert(r.opt().SetOption(mangos.OptionUnsubscribe, []byte{byte('a' + i)}) == nil, lab+"/unsubscribe-of-a-held-subscription-fails")
+		}
+	}
+	for i := 0; i < N; i++ {
+		p0.Deliver([]byte{byte('a' + i), 9})
+	}
+	verif.Quiesce()
+	verif.Assert(!g.Done(), lab+"/publication-delivered-without-any-subscription")
+	verif.Reach("many-subscriptions-checked")
+	sock.Close()
+}
